@@ -524,6 +524,10 @@ def run(ctx):
                     for off in ((0, 1, 2, 3, 4, 5, 6, 7, 8) if T else (0, 4)):
                         cases.append(dict(box='A', n_user=n_user, kind_off=off, directio=dio, template=template,
                                           source=source, num_blocks=2, bpf=2, bits=8, perms=False))
+        if not T:
+            # DIRECTIO zero given as a string card ('0'), as it comes back from a header that was read from a file
+            cases.append(dict(box='A', n_user=n_user, kind_off=0, directio='s0', template=False, source='ant', num_blocks=2, bpf=2,
+                              bits=8, perms=False))
     # Box B: block / file distribution and every listing permutation
     max_files = 6 if T else 4
     for nb in range(1, 7 if T else 6):
@@ -544,7 +548,7 @@ def run(ctx):
                                     cases.append(c)
     # Box D: many blocks in one file with unpadded headers (a reader that assumes padding drifts by a whole block)
     for bpf in range(4, 13 if T else 11):
-        for dio in ('0', 'absent', '1'):
+        for dio in ('0', 'absent', '1', 's0'):
             for n_user in (0, 5, 15):
                 for source in ('ant', 'arr2'):
                     cases.append(dict(box='D', n_user=n_user, kind_off=0, directio=dio, template=False, source=source,
@@ -558,6 +562,12 @@ def run(ctx):
                         cases.append(dict(box='C', n_user=3, kind_off=2, directio='1', template=template, source=source,
                                           num_blocks=3, bpf=2, bits=8, perms=False, override=ov, user_pktidx=pk,
                                           npol=npol, asc=(npol == 1), fch1=6e9 if npol == 1 else 0.0, start_chan=0))
+    # the pipeline-owned frequency cards for every first recorded channel (OBSFREQ is the centre of the recorded window)
+    for sc in (0, 1, 2, 3):
+        for nchan in (1, 2, 3):
+            for asc in (True, False):
+                cases.append(dict(box='C', n_user=2, kind_off=1, directio='1', template=False, source='ant', num_blocks=2, bpf=2, bits=8,
+                                  perms=False, npol=1, asc=asc, fch1=6e9, start_chan=sc, num_chans=nchan, P=16))
     ctx.pmap(case_record, cases)
     # Box E: histories of recordings on one backend object
     settings = [(dio, template, n_user, nb) for dio in ('absent', '0', '1') for template in (False, True)
